@@ -147,7 +147,7 @@ class FnLowerS(FnLower):
             else:
                 self.frames.pop()
             return
-        if k.endswith('Expr') or k.endswith('Operator') or k.endswith('Literal'):
+        if k.endswith('Expr') or k.endswith('Operator') or k.endswith('Literal') or k == 'ExprWithCleanups':
             self.push_frame()
             self.discard(n)
             self.pop_frame()
